@@ -7,7 +7,7 @@ CONSTANTS
   FlagSet <- FlagsStd
   SchI = {1, 2}
   UsrI = {1, 2}
-  PwI = {1, 2}
+  PwI = {1}
   HostI = {1, 2}
   PortI = {1}
   PNameI = {1, 7}
